@@ -8,18 +8,20 @@ type (qv_typed tables) and of the real value into the fragment's syntax, so that
 
 can be compared on every generated program, on every run.
 
-Types (python tuples): "int" | "bin" | ("tup", name|None, (types..)) | ("union", (types..))
-Expressions: ("int", z) ("bin", len) ("tup", name, [e..]) ("var", x) ("get", e, i) ("add", e1, e2)
+Types (python tuples): "int" | "bin" | ("tup", name|None, (types..), (labels|None..)) | ("union", (types..))
+Expressions: ("int", z) ("bin", len) ("tup", name, [e..], labels) ("var", x) ("get", e, i) ("getl", e, label) ("add", e1, e2)
   ("len", e) ("let", x, e1, e2) ("letas", x, T, e1, e2) ("case", x, [(pat, e)..], d) ("call", f, e)
-Patterns: ("pty", T) | ("ptup", name, [x|None ..])"""
+Patterns: ("pty", T) | ("ptup", name, [x|None ..], labels)"""
 
 NAMES = ["A", "B", "C", "D", "E"]
+LABELS = ["x", "y", "z", "k"]
 INT, BIN = "int", "bin"
-NIL = ("tup", None, ())
+NIL = ("tup", None, (), ())
 
 
-def tup(name, fields):
-    return ("tup", name, tuple(fields))
+def tup(name, fields, labels=None):
+    fields = tuple(fields)
+    return ("tup", name, fields, tuple(labels) if labels is not None else (None,) * len(fields))
 
 
 def variants(t):
@@ -40,7 +42,7 @@ def norm(t):
     if t in (INT, BIN):
         return t
     if t[0] == "tup":
-        return ("tup", t[1], tuple(norm(f) for f in t[2]))
+        return ("tup", t[1], tuple(norm(f) for f in t[2]), t[3])
     vs = []
     for v in t[1]:
         nv = norm(v)
@@ -52,11 +54,19 @@ def norm(t):
 
 
 # ------------------------------------------------------------------ rendering
+def shape_sexp(name, labels):
+    return "%s (%s)" % ("-" if name is None else NAMES.index(name), " ".join("-" if l is None else str(LABELS.index(l)) for l in labels))
+
+
+def lab_src(l):
+    return (l + ": ") if l is not None else ""
+
+
 def ty_sexp(t):
     if t in (INT, BIN):
         return t
     if t[0] == "tup":
-        return "(tup %s%s)" % ("-" if t[1] is None else NAMES.index(t[1]), "".join(" " + ty_sexp(f) for f in t[2]))
+        return "(tup %s%s)" % (shape_sexp(t[1], t[3]), "".join(" " + ty_sexp(f) for f in t[2]))
     return "(union%s)" % "".join(" " + ty_sexp(v) for v in t[1])
 
 
@@ -68,7 +78,7 @@ def ty_src(t, top=False):
     if t[0] == "tup":
         if not t[2]:
             return t[1] or "[]"
-        return (t[1] or "") + "[" + ", ".join(ty_src(f) for f in t[2]) + "]"
+        return (t[1] or "") + "[" + ", ".join(lab_src(l) + ty_src(f) for l, f in zip(t[3], t[2])) + "]"
     s = " | ".join(ty_src(v) for v in t[1])
     return s if top else "(" + s + ")"
 
@@ -76,7 +86,7 @@ def ty_src(t, top=False):
 def pat_sexp(p):
     if p[0] == "pty":
         return "(pty %s)" % ty_sexp(p[1])
-    return "(ptup %s%s)" % ("-" if p[1] is None else NAMES.index(p[1]), "".join(" " + ("_" if b is None else str(b)) for b in p[2]))
+    return "(ptup %s%s)" % (shape_sexp(p[1], p[3]), "".join(" " + ("_" if b is None else str(b)) for b in p[2]))
 
 
 def exp_sexp(e):
@@ -86,7 +96,9 @@ def exp_sexp(e):
     if k == "bin":
         return "(bin %d)" % e[1]
     if k == "tup":
-        return "(tup %s%s)" % ("-" if e[1] is None else NAMES.index(e[1]), "".join(" " + exp_sexp(x) for x in e[2]))
+        return "(tup %s%s)" % (shape_sexp(e[1], e[3]), "".join(" " + exp_sexp(x) for x in e[2]))
+    if k == "getl":
+        return "(getl %s %d)" % (exp_sexp(e[1]), LABELS.index(e[2]))
     if k == "var":
         return "(var %d)" % e[1]
     if k == "get":
@@ -132,7 +144,7 @@ class Src:
         name = p[1] or ""
         if not p[2]:
             return "=" + (name or "[]")
-        return "=%s[%s]" % (name, ", ".join("_" if b is None else var_src(b) for b in p[2]))
+        return "=%s[%s]" % (name, ", ".join(lab_src(l) + ("_" if b is None else var_src(b)) for l, b in zip(p[3], p[2])))
 
     def chain(self, e):
         """the expression as ONE chain (no top-level `,`)"""
@@ -144,7 +156,9 @@ class Src:
         if k == "tup":
             if not e[2]:
                 return e[1] or "[]"
-            return (e[1] or "") + "[" + ", ".join(self.chain(x) for x in e[2]) + "]"
+            return (e[1] or "") + "[" + ", ".join(lab_src(l) + self.chain(x) for l, x in zip(e[3], e[2])) + "]"
+        if k == "getl":
+            return "%s .%s" % (self.chain(e[1]), e[2])
         if k == "var":
             return var_src(e[1])
         if k == "get":
@@ -201,7 +215,10 @@ class Gen:
 
     def variant(self, name):
         k = self.rng.choice([0, 1, 1, 2])
-        return tup(name, [self.rng.choice([INT, INT, BIN]) for _ in range(k)])
+        labels = self.rng.sample(LABELS, k) if self.rng.random() < 0.4 else [None] * k
+        if labels and labels[0] is not None:
+            self.note("labelled_tuples")
+        return tup(name, [self.rng.choice([INT, INT, BIN]) for _ in range(k)], labels)
 
     def union_type(self):
         r = self.rng
@@ -219,7 +236,7 @@ class Gen:
         if t == BIN:
             return ("bin", r.randint(0, 3))
         if t[0] == "tup":
-            return ("tup", t[1], [self.lit(f) for f in t[2]])
+            return ("tup", t[1], [self.lit(f) for f in t[2]], t[3])
         return self.lit(r.choice(variants(t)))
 
     def of_type(self, t, env, depth):
@@ -238,10 +255,17 @@ class Gen:
             if tv and k < 0.7:
                 x, xt = r.choice(tv)
                 self.note("field_access")
-                return ("get", ("var", x), r.choice([i for i, f in enumerate(xt[2]) if f == INT]))
+                return self.access(("var", x), xt, r.choice([i for i, f in enumerate(xt[2]) if f == INT]))
         if isinstance(t, tuple) and t[0] == "tup" and depth < 3:
-            return ("tup", t[1], [self.of_type(f, env, depth + 1) for f in t[2]])
+            return ("tup", t[1], [self.of_type(f, env, depth + 1) for f in t[2]], t[3])
         return self.lit(t)
+
+    def access(self, e, t, i):
+        """field i of e : t (a tuple type), by label when it has one (sometimes by position)"""
+        if t[3][i] is not None and self.rng.random() < 0.7:
+            self.note("label_access")
+            return ("getl", e, t[3][i])
+        return ("get", e, i)
 
     def use(self, x, t, env, depth):
         """an int-valued expression using variable x of (non-union) type t"""
@@ -253,10 +277,10 @@ class Gen:
             for i, f in enumerate(t[2]):
                 if f == INT:
                     self.note("field_access")
-                    return ("add", ("get", ("var", x), i), ("int", 1))
+                    return ("add", self.access(("var", x), t, i), ("int", 1))
                 if f == BIN:
                     self.note("field_access")
-                    return ("len", ("get", ("var", x), i))
+                    return ("len", self.access(("var", x), t, i))
         return ("int", self.rng.randint(10, 19))
 
     def case_on(self, x, tx, env, depth):
@@ -282,8 +306,8 @@ class Gen:
                     p, matched, binds = ("pty", v), [v], []
                 else:
                     bs = [self.fresh() if r.random() < 0.7 else None for _ in v[2]]
-                    p = ("ptup", v[1], bs)
-                    matched = [u for u in rest if isinstance(u, tuple) and u[1] == v[1] and len(u[2]) == len(v[2])]
+                    p = ("ptup", v[1], bs, v[3])
+                    matched = [u for u in rest if isinstance(u, tuple) and u[1] == v[1] and u[3] == v[3]]
                     binds = [(b, mk_union([u[2][i] for u in matched])) for i, b in enumerate(bs) if b is not None]
                     self.note("variant_patterns")
             benv = binds[::-1] + [(x, mk_union(matched))] + env
@@ -338,7 +362,9 @@ class Gen:
             self.note("calls")
             return ("call", f, self.of_type(p, env, depth + 1)), res
         if k < 0.85:
-            t = tup(r.choice(NAMES + [None]), [r.choice([INT, BIN]) for _ in range(r.randint(0, 2))])
+            n = r.randint(0, 2)
+            t = tup(r.choice(NAMES + [None]), [r.choice([INT, BIN]) for _ in range(n)],
+                    r.sample(LABELS, n) if r.random() < 0.4 else None)
             return self.of_type(t, env, depth), t
         t = r.choice([INT, INT, BIN])
         return self.of_type(t, env, depth), t
@@ -369,7 +395,7 @@ class Gen:
             obs.append(self.body([], 1)[0])
         r.shuffle(obs)
         obs = obs[:6]
-        main = ("tup", None, obs)
+        main = ("tup", None, obs, (None,) * len(obs))
         fns = [(p, b) for p, b, _ in self.fns]
         return fns, main
 
@@ -393,15 +419,16 @@ def real_type(types, tuples, tid, depth=0):
     if t[0] == "tuple":
         info = tuples[int(t[1])]
         name = None if info[1] == "-" else info[1]
-        fs = []
+        fs, labs = [], []
         for f in info[2:]:
-            if f[0] != "-":
+            if f[0] != "-" and f[0] not in LABELS:
                 return None
             ft = real_type(types, tuples, int(f[1]), depth + 1)
             if ft is None:
                 return None
             fs.append(ft)
-        return ("tup", name, tuple(fs))
+            labs.append(None if f[0] == "-" else f[0])
+        return ("tup", name, tuple(fs), tuple(labs))
     if t[0] == "union":
         vs = [real_type(types, tuples, int(v), depth + 1) for v in t[1:]]
         if any(v is None for v in vs) or not vs:
@@ -419,7 +446,8 @@ def real_value(v, tuples):
     if v[0] == "t":
         info = tuples[int(v[1])]
         name = "-" if info[1] == "-" else (str(NAMES.index(info[1])) if info[1] in NAMES else "?" + info[1])
-        return "(t %s%s)" % (name, "".join(" " + real_value(f, tuples) for f in v[2:]))
+        labs = " ".join("-" if f[0] == "-" else (str(LABELS.index(f[0])) if f[0] in LABELS else "?") for f in info[2:])
+        return "(t %s (%s)%s)" % (name, labs, "".join(" " + real_value(f, tuples) for f in v[2:]))
     return "(other)"
 
 
@@ -428,5 +456,6 @@ def parse_ty(s):
     if s in ("int", "bin"):
         return s
     if s[0] == "tup":
-        return ("tup", None if s[1] == "-" else NAMES[int(s[1])], tuple(parse_ty(f) for f in s[2:]))
+        return ("tup", None if s[1] == "-" else NAMES[int(s[1])], tuple(parse_ty(f) for f in s[3:]),
+                tuple(None if l == "-" else LABELS[int(l)] for l in s[2]))
     return ("union", tuple(parse_ty(v) for v in s[1:]))
